@@ -293,7 +293,7 @@ def run_secrecy(case, rec):
 CHECKS = [
     Check("field", run=run_field, strategy=strat_field, examples=(3000, 60000), shards=(8, 16),
           rule="field: _Element * + inverse ** encode vs reference and field laws"),
-    Check("split_combine", run=run_split, strategy=strat_split, examples=(320, 6000), shards=(8, 16),
+    Check("split_combine", run=run_split, strategy=strat_split, examples=(320, 6000), shards=(16, 16),
           rule="split with injected coefficient tape == reference polynomial evaluation; combine(any k-subset, any order) == secret"),
     Check("duplicate", run=run_dup, strategy=strat_dup, examples=(400, 4000), shards=(2, 8),
           rule="duplicate share index refused with ValueError"),
